@@ -599,6 +599,14 @@ def write_replay(prop, kind, what, d, extra=None):
         "checker": d.get("checker", "arena_check"),
         "maxops": d.get("maxops"),
     }
+    if str(d.get("hid", "")).startswith("iso"):
+        n = str(d.get("hid"))[3:]
+        body["replay_cmd"] = "%s iso %s 1 %s | %s" % (bin_path(d.get("mode", "debug"), "arena_driver"), d.get("seed"), n, os.path.join(OCAML_BUILD, "arena_check"))
+        try:
+            with open(d.get("trace", "")) as tf:
+                body["history"] = [l.rstrip("\n") for l in tf if l.startswith("I hid=%s " % n)]
+        except OSError:
+            pass
     if d.get("driver") == "borrow_probe":
         m = re.match(r"\[(\w+):([\w,]+)\]", d.get("desc", ""))
         body["replay_cmd"] = ("python3 %s one %s %s" % (os.path.join(VERIF, "tools", "borrow_probe.py"), m.group(1), m.group(2).replace(",", " "))) if m \
